@@ -461,6 +461,57 @@ fn boundary_producers(rep: &mut Report) {
     }
     antipodal!(f32, Quat, Vec3);
     antipodal!(f64, DQuat, DVec3);
+    // quaternions that are unit only within the tolerance glam itself applies (|q|^2 = 1 +- 1.9e-4) are
+    // valid inputs: no consumer that asserts is_normalized may reject them, whatever it delegates to
+    macro_rules! edge_unit {
+        ($S:ident, $Q:ident, $V3:ident, $M3:ident, $M4:ident, $A3:ident) => {{
+            let tn = stringify!($Q);
+            rep.sweep(&format!("boundary producers/{tn} unit within tolerance/7 axes x 6 angles x 4 scalings"), 7 * 6 * 4, |idx, acc| {
+                let dirs: [[$S; 3]; 7] = [[1.0, 0.0, 0.0], [0.0, 1.0, 0.0], [0.0, 0.0, -1.0], [0.6, 0.0, 0.8], [0.0, -0.6, 0.8], [0.57735026, 0.57735026, 0.57735026], [-0.2, 0.3, 0.93273790530888]];
+                let d = dirs[(idx % 7) as usize];
+                let ang = [0.0 as $S, 0.7, 1.5707964, 2.0, 3.1415927, -2.5][((idx / 7) % 6) as usize];
+                let k = [1.9e-4f64, -1.9e-4, 1.0e-4, -5.0e-5][(idx / 42) as usize];
+                let q = <$Q>::from_axis_angle(<$V3>::new(d[0], d[1], d[2]).normalize(), ang) * ((1.0 + k).sqrt() as $S);
+                if !q.is_normalized() { return; }
+                acc.eval(true, idx);
+                let v = <$V3>::new(0.5, -1.0, 2.0);
+                let calls: Vec<(&str, Result<(), String>)> = vec![
+                    ("to_euler(YXZ)", catch(|| { let _ = q.to_euler(EulerRot::YXZ); })), ("to_euler(ZYX)", catch(|| { let _ = q.to_euler(EulerRot::ZYX); })), ("to_euler(XZXEx)", catch(|| { let _ = q.to_euler(EulerRot::XZXEx); })),
+                    ("to_axis_angle", catch(|| { let _ = q.to_axis_angle(); })), ("to_scaled_axis", catch(|| { let _ = q.to_scaled_axis(); })), ("inverse", catch(|| { let _ = q.inverse(); })),
+                    ("mul_vec3", catch(|| { let _ = q * v; })), ("mul_quat", catch(|| { let _ = q * q; })), ("slerp", catch(|| { let _ = q.slerp(<$Q>::IDENTITY, 0.3); })), ("lerp", catch(|| { let _ = q.lerp(<$Q>::IDENTITY, 0.3); })),
+                    ("angle_between", catch(|| { let _ = q.angle_between(<$Q>::IDENTITY); })), ("rotate_towards", catch(|| { let _ = q.rotate_towards(<$Q>::IDENTITY, 0.2); })), ("is_near_identity", catch(|| { let _ = q.is_near_identity(); })),
+                    ("Mat3::from_quat", catch(|| { let _ = <$M3>::from_quat(q); })), ("Mat4::from_quat", catch(|| { let _ = <$M4>::from_quat(q); })), ("Affine3::from_quat", catch(|| { let _ = <$A3>::from_quat(q); })),
+                    ("Mat4::from_rotation_translation", catch(|| { let _ = <$M4>::from_rotation_translation(q, v); })), ("Mat4::from_scale_rotation_translation", catch(|| { let _ = <$M4>::from_scale_rotation_translation(v, q, v); })),
+                    ("Affine3::from_scale_rotation_translation", catch(|| { let _ = <$A3>::from_scale_rotation_translation(v, q, v); })),
+                ];
+                for (site, r) in calls {
+                    if let Err(p) = r { acc.fail(&format!("edge::{tn}::{site}(unit within tolerance)"), format!("q={:?} |q|^2={:e} panicked: {p}", q, q.length_squared())); }
+                }
+            });
+        }};
+    }
+    edge_unit!(f32, Quat, Vec3, Mat3, Mat4, Affine3A);
+    edge_unit!(f64, DQuat, DVec3, DMat3, DMat4, DAffine3);
+    // steering between parallel / opposite operands: glam picks its own axis there, and must hand a valid
+    // one to its own quaternion constructor; the length of the operand is preserved
+    macro_rules! steer_parallel {
+        ($(($V:ident, $S:ident)),*) => {$(
+            rep.sweep(concat!("boundary producers/", stringify!($V), "::rotate_towards between parallel operands/7 directions x 4 targets x 4 angles x 3 lengths"), 7 * 4 * 4 * 3, |idx, acc| {
+                let dirs: [[$S; 3]; 7] = [[1.0, 0.0, 0.0], [0.0, 1.0, 0.0], [0.0, 0.0, -1.0], [0.6, 0.0, 0.8], [0.0, -0.6, 0.8], [0.57735026, 0.57735026, 0.57735026], [-0.2, 0.3, 0.93273790530888]];
+                let d = dirs[(idx % 7) as usize];
+                let len = [1.0 as $S, 2.5, 1e-3][(idx / 112) as usize];
+                let v = <$V>::new(d[0], d[1], d[2]).normalize() * len;
+                let t = v * [1.0 as $S, -1.0, 2.0, -0.5][((idx / 7) % 4) as usize];
+                let a = [0.3 as $S, -0.3, 4.0, 0.0][((idx / 28) % 4) as usize];
+                acc.eval(true, idx);
+                match catch(|| v.rotate_towards(t, a)) {
+                    Err(p) => acc.fail(concat!("edge::", stringify!($V), "::rotate_towards(parallel operands)"), format!("v={:?} target={:?} angle={:?} panicked: {p}", v, t, a)),
+                    Ok(r) => if !((r.length() - len).abs() <= 1e-3 * len) { acc.fail(concat!("edge::", stringify!($V), "::rotate_towards(parallel operands, length)"), format!("v={:?} target={:?} angle={:?} result={:?} |result|={:e}", v, t, a, r, r.length())); },
+                }
+            });
+        )*};
+    }
+    steer_parallel!((Vec3, f32), (Vec3A, f32), (DVec3, f64));
     // a Vec3A whose unused fourth lane holds an infinity or a NaN is a perfectly valid unit vector:
     // every producer / consumer behaves as for the same three lanes with a clean register
     rep.sweep("boundary producers/Vec3A with a non-finite hidden lane/7 directions x 5 hidden values", 35, |idx, acc| {
